@@ -564,7 +564,7 @@ def gen_case(rng, tier, k):
                 ["state", "state", "read", "fn", "call", "fail", "multifail",
                  "syntax", "loopabort", "require", "require", "require",
                  "moduse", "moduse", "sentinel", "failstorm", "appear",
-                 "runfile", "bindnative", "bigarg"])
+                 "runfile", "bindnative", "bigarg", "shadowloop"])
             if kind == "appear":
                 # a module that was missing appears in the store (or a
                 # present one disappears) between two commands
@@ -690,6 +690,27 @@ def gen_case(rng, tier, k):
                 stmts.append(["blk", [["expr", ["call", "f_big", [big]]]],
                               [[None, [["mark", g.fresh("bg")]]]], None])
                 stmts.append(["expr", ["call", "f_big", [big]]])
+            elif kind == "shadowloop":
+                # loops inside a function use a loop-variable name that the
+                # session also defines (nested loops even the same name
+                # twice): the call must leave the session's variable alone
+                ints = known(scope, "i_")
+                if ints:
+                    nm = rng.choice(ints)
+                else:
+                    nm = "i_" + rng.choice("abcdefgh")
+                    stmts.append(["def", nm, rng.randrange(50, 60)])
+                inner = [["mark", g.fresh("sl")]]
+                if rng.random() < 0.7:
+                    inner = [["for", nm, ["l", [7, 8][:rng.randrange(1, 3)]],
+                              [["mark", g.fresh("sl")]]]]
+                if rng.random() < 0.25:
+                    inner.append(gen_fail_stmt())
+                stmts.append(["deffn", "f_sh", [],
+                              [["for", nm, ["l", [1, 2]], inner],
+                               ["ret", 1]]])
+                stmts.append(["expr", ["call", "f_sh", []]])
+                stmts.append(["expr", ["v", nm]])
             elif kind == "failstorm":
                 # many failures unwinding through nested function calls in
                 # one command, each handled; afterwards calls still work
